@@ -121,11 +121,12 @@ Definition delete_before_cursor (s : est) (count : Z) : eres :=
 
 Definition delete (s : est) (count : Z) : eres :=
   if ec s <? len (et s) then
-    let deleted := slice_to (text_after_cursor (edoc s)) count in
+    (* text_after_cursor[: max(0, count)] (fix 31f4250: a negative count deletes nothing) *)
+    let deleted := slice_to (text_after_cursor (edoc s)) (Z.max 0 count) in
     set_text s (slice_to (et s) (ec s) ++ slice_from (et s) (ec s + len deleted))
   else EOk s.
 Definition deleted_text (s : est) (count : Z) : str :=
-  if ec s <? len (et s) then slice_to (text_after_cursor (edoc s)) count else [].
+  if ec s <? len (et s) then slice_to (text_after_cursor (edoc s)) (Z.max 0 count) else [].
 
 Definition cursor_left (s : est) (count : Z) : eres :=
   EOk (set_cursor s (ec s + get_cursor_left_position (edoc s) count)).
@@ -180,9 +181,23 @@ Definition set_working_index (s : est) (i : Z) : est :=
     (* cursor_position = 0 (clamped against the new text), then _text_changed *)
     with_tc (with_hist s t wl i) t 0 None None.
 
+(* if 0 <= index < len(self._working_lines): (lower bound since fix c767972) *)
 Definition go_to_history (s : est) (i : Z) : eres :=
   if (i <? len (ewl s)) && (0 <=? i)
   then let s1 := set_working_index s i in EOk (set_cursor s1 (len (et s1)))
+  else EOk s.
+
+(* The function as it stood before c767972: only `index < len(...)`.  A
+   negative index is assigned to working_index; the working_index setter then
+   evaluates `self.cursor_position = 0`, which reads self.text =
+   _working_lines[index]: Python's negative indexing for -len <= index < 0
+   (the buffer shows that line under an out-of-range index), IndexError below
+   -len, raised AFTER the index was stored. *)
+Definition go_to_history_pinned (s : est) (i : Z) : eres :=
+  if i <? len (ewl s) then
+    if i <? - len (ewl s)
+    then EErr E_INDEX (with_hist s (et s) (set_nth (ewl s) (Z.to_nat (ewi s)) (et s)) i)
+    else let s1 := set_working_index s i in EOk (set_cursor s1 (len (et s1)))
   else EOk s.
 
 (* history_backward / history_forward with history_search_text = None: every
